@@ -22,7 +22,7 @@ ASSUMPTIONS = ['at most one instance of a unique middleware type inside any sing
 REQUIRED_REACH = ['dup-unique-within-an-inner-list', 'beh:render-layer-returns-non-response', 'same-instance-across-levels', 'same-instance-across-levels:unique', 'same-instance-across-levels:unique-nonreorderable', 'same-class-name-across-levels', 'constructed', 'requests-on-accepted', 'beh:raise_before', 'beh:raise_after', 'beh:short', 'beh:swallow',
                   'beh:replace', 'beh:short_ctx', 'beh:ep-resp', 'beh:ep-raise', 'beh:rn-raise', 'levels:2', 'levels:3',
                   'dup-unique-across-levels', 'nonreorderable-dup', 'phase-seen:request', 'phase-seen:endpoint',
-                  'phase-seen:render', 'sibling-routes-with-own-middlewares', 'flavour:base', 'flavour:http', 'raises-http-exception', 'raises-builtin-exception', 'subclass-across-levels']
+                  'phase-seen:render', 'sibling-routes-with-own-middlewares', 'flavour:base', 'flavour:http', 'raises-http-exception', 'raises-builtin-exception', 'subclass-across-levels', 'embedded-keeping-own-slash-mode', 'schedules:two-requests-on-one-route']
 NSHARDS = 16
 MW_BEH = ['raise_before', 'raise_after', 'short', 'short_ctx', 'swallow', 'replace']
 
@@ -167,10 +167,105 @@ def make_case(rng, sh):
 
 def plan(tier, seed):
     return [{'label': 'rand-%d' % i, 'n': 700 if tier == 'quick' else 32000,
-             'timeout': 1200 if tier == 'quick' else 7200} for i in range(NSHARDS)]
+             'timeout': 1200 if tier == 'quick' else 7200} for i in range(NSHARDS)] + \
+           [{'label': 'interleaved-' + k, 'kind': 'interleaved', 'kind_of_route': k, 'timeout': 1200} for k in ('rendered', 'response')]
+
+
+def interleaved(sh, spec):
+    """Two requests on one route whose servings overlap (every single-preemption schedule: A runs k clastic lines, B runs to
+    completion, A resumes): each request's onion is its own - every layer sees its own request's values going in and exactly
+    what the layer below it returned coming out."""
+    import os
+    import json
+    from clastic import Application, Route, Response, Middleware
+    from .. import sched, probe
+    from ..common import REPO
+    roots = (os.path.join(REPO, 'clastic') + os.sep, '<sinter generated')
+    kind = spec.get('kind_of_route', 'rendered')
+
+    def log(request, what, value):
+        request.environ.setdefault('vt.trace', []).append([what, value])
+
+    class Outer(Middleware):
+        provides = ('outer_tag',)
+
+        def request(self, next, request):
+            tok = request.args.get('tok')
+            log(request, 'outer.request>', tok)
+            r = next(outer_tag='outer:' + tok)
+            log(request, 'outer.request<', r.headers.get('X-Tok') if hasattr(r, 'headers') else repr(r))
+            return r
+
+        def endpoint(self, next, request, outer_tag):
+            log(request, 'outer.endpoint>', outer_tag)
+            r = next()
+            log(request, 'outer.endpoint<', r.get('tok') if isinstance(r, dict) else getattr(r, 'headers', {}).get('X-Tok'))
+            return r
+
+        def render(self, next, request, context):
+            log(request, 'outer.render>', context.get('tok'))
+            r = next()
+            log(request, 'outer.render<', r.headers.get('X-Tok'))
+            return r
+
+    class Inner(Middleware):
+        def request(self, next, request, outer_tag):
+            log(request, 'inner.request>', outer_tag)
+            r = next()
+            log(request, 'inner.request<', r.headers.get('X-Tok') if hasattr(r, 'headers') else repr(r))
+            return r
+
+    def ep(request, x, outer_tag):
+        tok = request.args.get('tok')
+        log(request, 'endpoint', [x, outer_tag])
+        if kind == 'response':
+            return Response('direct:' + tok, headers={'X-Tok': tok})
+        return {'tok': tok, 'x': x}
+
+    def rn(request, context):
+        log(request, 'render', context.get('tok'))
+        return Response(json.dumps(context, sort_keys=True), headers={'X-Tok': context['tok']})
+
+    def build():
+        return Application([Route('/r/<x>', ep, rn, middlewares=[Inner()])], middlewares=[Outer()])
+
+    def job(app, tok):
+        def run():
+            env = probe.make_environ('GET', '/r/x-' + tok, 'tok=' + tok)
+            ex = probe.call_wsgi(app, env)
+            return ex, env.get('vt.trace')
+        return run
+
+    def alone(tok):
+        ex, trace = job(build(), tok)()
+        return ex.status, ex.body, trace
+    want = {t: alone(t) for t in ('A', 'B')}
+    n_points = sched.count_points(job(build(), 'A'), roots)
+    sh.notes['interleaved:' + kind] = 'yield points of one request: %d' % n_points
+    app = build()
+    for k in range(1, n_points + 1):
+        for fresh in (False, True):
+            a = build() if fresh else app
+            s = sched.Scheduler(2, sched.preempt_once(k), roots)
+            res = s.run([job(a, 'A'), job(a, 'B')])
+            case = {'interleaved': kind, 'k': k, 'fresh': fresh}
+            sh.case(case, nontrivial=bool(s.switches), klass='interleaved:' + kind)
+            if s.broken:
+                sh.hit('watchdog-fired')
+                continue
+            sh.hit('schedules:two-requests-on-one-route')
+            for (tag, val), tok in zip(res, ('A', 'B')):
+                got = (val[0].status, val[0].body, val[1]) if tag == 'ok' and val[0].exc is None else (tag, probe.safe_repr(val[0].exc if tag == 'ok' else val)[:200], None)
+                if got != want[tok]:
+                    sh.violation('C03/onion-of-another-request', 'two overlapping requests on one route (%s; preemption after %d steps%s): request %s '
+                                 'went through %r, served alone it goes through %r' % (kind, k, ', fresh application' if fresh else '', tok, got, want[tok]), case)
+                    return
 
 
 def run_shard(sh, spec):
+    if spec.get('kind') == 'interleaved':
+        interleaved(sh, spec)
+        return
     rng = Rng(spec['seed'], PROPERTY, spec['label'])
     for i in range(spec['n']):
         cfg, nt = make_case(rng, sh)
@@ -178,4 +273,7 @@ def run_shard(sh, spec):
 
 
 def replay(sh, case, spec):
+    if 'interleaved' in case:
+        interleaved(sh, {'kind_of_route': case['interleaved']})
+        return
     replay_cfg(sh, PROPERTY, case)
